@@ -200,6 +200,36 @@ Theorem C15_segment_bounds : forall (b : R) (nmin : nat) (T : list R),
 Proof. intros b nmin T. split; [apply seg_lo_le | apply seg_hi_ge]. Qed.
 Print Assumptions C15_segment_bounds.
 
+(* ------------------------------------------------------------------ the final box from the initial fit (get_bnds) *)
+
+Print get_bnds_row.
+Print final_box_from_initial.
+Print near.
+Print initial_near.
+
+(* fit_final_model builds the slope / smoothing rows of the final fit as  x0 -+ |x0| final_bounds_scalar  around the
+   initial fit's result x0 (-+ 10 scalar around a zero entry): a value within that relative distance lies in the row *)
+Theorem C15_get_bnds_row : forall s x0 v : R, near s x0 v ->
+  fst (get_bnds_row NR s x0) <= v <= snd (get_bnds_row NR s x0).
+Proof. exact get_bnds_row_in. Qed.
+Print Assumptions C15_get_bnds_row.
+
+(* so the generating building is feasible for the box of the final fit as the code derives it from the initial fit
+   (no row taken on trust): the opaque hypothesis slope_rows_ok of C15_generator_in_box becomes a condition on the
+   initial fit's slopes, which harness/c15.py evaluates on every fit *)
+Theorem C15_generator_in_box_from_initial_fit : forall (p : building NR) (nmin : nat) (T obs : list R) (s : R) (x0 : list R),
+  0 <= b_hbeta p -> 0 <= b_cbeta p ->
+  days_ok p nmin T -> initial_near p s x0 -> icpt_ok p obs ->
+  exists box, final_box_from_initial NR (key_of_shape (shape_of NR p)) nmin T obs s x0 = Some box /\
+              in_box NR box (raw_of NR p) = true.
+Proof. exact generator_in_box_from_initial. Qed.
+Print Assumptions C15_generator_in_box_from_initial_fit.
+
+(* with the method's final_bounds_scalar = 1 the condition reads: the initial slope is at least half the generating one *)
+Theorem C15_half_the_slope_suffices : forall x0 v : R, 0 < x0 -> 0 <= v <= 2 * x0 -> near 1 x0 v.
+Proof. exact near_scalar_one. Qed.
+Print Assumptions C15_half_the_slope_suffices.
+
 (* ------------------------------------------------------------------ out of sample, from the stored parameters *)
 
 Print param_gap.
@@ -342,6 +372,24 @@ Proof.
   reflexivity.
 Qed.
 
+(* the same building, the box derived from an initial fit that found slope -0.8 (generator -1), scalar 1 *)
+Example ex_in_box_from_initial :
+  exists box, final_box_from_initial NR (key_of_shape (shape_of NR ex_h)) 1 [40; 45; 60; 65] [20] 1 [49; - (8 / 10); 21] = Some box /\
+              in_box NR box (raw_of NR ex_h) = true.
+Proof.
+  apply C15_generator_in_box_from_initial_fit.
+  - cbn. lra.
+  - cbn. lra.
+  - exact ex_month_of_days.
+  - unfold initial_near, ex_h, shape_of. cbn [b_hbeta b_cbeta].
+    change (@n_eqb NR 1 n_zero) with (Reqb 1 0). change (@n_eqb NR 0 n_zero) with (Reqb 0 0).
+    rewrite (proj2 (Reqb_false 1 0)) by lra. rewrite (proj2 (Reqb_true 0 0)) by reflexivity.
+    cbn iota. split; [intros E; lra|]. intros _.
+    unfold Rabs. repeat match goal with |- context [Rcase_abs ?x] => destruct (Rcase_abs x) end; lra.
+  - unfold icpt_ok, ex_h. cbn [b_base]. rewrite !quantile_singleton. lra.
+Qed.
+
+
 (* a stored two-sided document whose base load is off by 0.1: within 5 % of a mean usage of 20 on every weather year
    between 0 F and 100 F *)
 Definition ex_fit_doc : coeffs NR := Build_coeffs NR HddTiddCdd (201 / 10) (Some 52) (Some (12 / 10)) None (Some 68) (Some (8 / 10)) None.
@@ -427,5 +475,13 @@ Example ex_check_box :
                         [(60, 90); (0, 2); (10, 0x1.d99999999999ap+4)]%float)) = true
   /\ check_any (AFinalBox (KC, 1%nat, [50; 60; 70; 80; 90]%float, [10; 10; 10; 20; 30]%float,
                            [(60, 90); (0, 2); (10, 20)]%float)) = false.
+Proof. vm_compute. split; reflexivity. Qed.
+(* the same box derived from the initial fit's result [bp 70; slope 1; intercept 10] with final_bounds_scalar 1:
+   slope row 1 -+ 1; with another scalar the recorded row no longer matches *)
+Example ex_check_box_from_initial :
+  check_any (AFinalFromInitial (KC, 1%nat, [50; 60; 70; 80; 90]%float, [10; 10; 10; 20; 30]%float, 1%float,
+                                [70; 1; 10]%float, [(60, 90); (0, 2); (10, 0x1.d99999999999ap+4)]%float)) = true
+  /\ check_any (AFinalFromInitial (KC, 1%nat, [50; 60; 70; 80; 90]%float, [10; 10; 10; 20; 30]%float, 2%float,
+                                   [70; 1; 10]%float, [(60, 90); (0, 2); (10, 0x1.d99999999999ap+4)]%float)) = false.
 Proof. vm_compute. split; reflexivity. Qed.
 End Binary64.
